@@ -1339,20 +1339,27 @@ class _Flattener:
 
         elif is_coordinate_variable and local_apex_reached:
             # Coordinate variable and local apex reached, so search
-            # down in siblings
-            found_elt = None
-            for child_group in current_group.groups.values():
-                found_elt = self.search_by_proximity(
-                    ref,
-                    child_group,
-                    search_dim,
-                    local_apex_reached,
-                    is_coordinate_variable,
-                )
-                if found_elt is not None:
-                    break
+            # downwards from the local apex group, width-wise through
+            # each level of sub-groups, until found (lateral search,
+            # CF section 2.7)
+            level = list(current_group.groups.values())
+            while level:
+                for child_group in level:
+                    if search_dim:
+                        dims_or_vars = child_group.dimensions
+                    else:
+                        dims_or_vars = child_group.variables
 
-            return found_elt
+                    if ref in dims_or_vars.keys():
+                        return dims_or_vars[ref]
+
+                level = [
+                    sub_group
+                    for child_group in level
+                    for sub_group in child_group.groups.values()
+                ]
+
+            return None
 
         else:
             # Did not find
